@@ -21,6 +21,7 @@ meta.update({
     'note': note,
 })
 for f in ('patch.diff', 'demo.py'):
-    shutil.copy(os.path.join(src, f), os.path.join(dst, f))
+    if os.path.abspath(src) != os.path.abspath(dst):
+        shutil.copy(os.path.join(src, f), os.path.join(dst, f))
 json.dump(meta, open(os.path.join(dst, 'meta.json'), 'w'), indent=1)
 print(name, 'confirmed' if ok else 'NOT CONFIRMED', 'detected' if meta['detected'] else 'MISSED', {k: v['exit'] for k, v in meta['checks'].items()})
